@@ -259,6 +259,10 @@ def evalG (pm : List Param) (s : Frame) : Stmt → List Int → Grid → M (Grid
   | .setMode _ _, _, g => .ok (g, .norm)     -- excluded by `wf`
   | .forParams _, _, g => .ok (g, .norm)     -- excluded by `wf`
   | .reply, _, g => .ok (g, .norm)           -- excluded by `wf`
+  | .setSS _, _, g => .ok (g, .norm)         -- excluded by `wf`
+  | .setSel _, _, g => .ok (g, .norm)        -- excluded by `wf`
+  | .setDesig _ _, _, g => .ok (g, .norm)    -- excluded by `wf`
+  | .setShape _, _, g => .ok (g, .norm)      -- excluded by `wf`
   | .cut _ _ _ _, _, g => .ok (g, .norm)     -- excluded by `wf`
   | .post, _, g => .ok (g, .norm)            -- excluded by `wf`
   | .setLink _, _, g => .ok (g, .norm)       -- excluded by `wf`
@@ -454,6 +458,14 @@ def evalS (pm : List Param) : Stmt → Frame → M (Frame × Sig)
   | .hostQuery, s => .ok (s, .norm)
   | .b64Decode k, s => .ok (s.set (.var k) (if s.info.b64ok then 0 else 1), .norm)
   | .clipPush, s => if s.e.hasVx then .ok (s, .norm) else .error .oob
+  | .setSS b, s => .ok ({ s with e := { s.e with cs := { s.e.cs with ss := b } } }, .norm)
+  | .setSel n, s => .ok ({ s with e := { s.e with cs := { s.e.cs with sel := n } } }, .norm)
+  | .setDesig k v, s =>
+    .ok ({ s with e := { s.e with cs :=
+      (if k = 0 then { s.e.cs with g0 := v } else if k = 1 then { s.e.cs with g1 := v }
+       else if k = 2 then { s.e.cs with g2 := v } else if k = 3 then { s.e.cs with g3 := v } else s.e.cs) } }, .norm)
+  | .setShape x, s =>
+    if exOk pm x then .ok ({ s with e := { s.e with cur := { s.e.cur with shape := evalEx pm s [] x } } }, .norm) else .error .oob
   | .forParams body, s => do
     let s' ← paramLoop (fun p s => do
       let r ← evalS pm body { s with param := p }
